@@ -2,11 +2,9 @@ package main
 
 import (
 	"fmt"
-	"os"
-
-	"golang.org/x/tools/go/ssa"
 
 	"verif/checker/eng"
+	"verif/checker/rules"
 )
 
 func main() {
@@ -14,17 +12,6 @@ func main() {
 	if err != nil {
 		panic(err)
 	}
-	fn := p.Func("contentstream.isLetter")
-	fn.WriteTo(os.Stdout)
-	S := eng.ByteReach(fn, func(v ssa.Value) bool { _, ok := v.(*ssa.Parameter); return ok }, func(in ssa.Instruction) bool {
-		_, ok := in.(*ssa.Return)
-		return ok
-	}, nil)
-	n := 0
-	for b := 0; b < 256; b++ {
-		if S[b] {
-			n++
-		}
-	}
-	fmt.Println(n)
+	rules.DebugRoles(p)
+	_ = fmt.Sprint
 }
